@@ -5,9 +5,10 @@ from props import factor_common as fc
 
 PID = "C04"
 GEN = ["primality"]
-LEAN = ["Ymq.Props.C04"]
+LEAN = ["Ymq.Props.C04", "Ymq.Props.C04Relations"]
 AUDIT = "Ymq.Audit.C04"
-THEOREMS = ["Ymq.C04.sched_inv", "Ymq.C04.sched_done_monotone", "Ymq.C04.sched_bounded_work", "Ymq.C04.sched_progress"]
+THEOREMS = ["Ymq.C04.sched_inv", "Ymq.C04.sched_done_monotone", "Ymq.C04.sched_bounded_work", "Ymq.C04.sched_progress",
+            "Ymq.C04.sched_relations_valid"]
 PROFILES = ["release", "chk"]
 TIMEOUT = 180.0
 RULE = ("real runs of qs/mpqs/siqs/auto/ecm with thread pools of 1,2,3,4,8,16 threads and a seeded yield/sleep before every "
@@ -19,7 +20,7 @@ MODELLED = ["the shared-store protocol (atomic adds, Relaxed completion flag, fi
 UNMODELLED = ["RwLock, rayon and the memory model are trusted runtime: deadlock- and race-freedom of the primitives is not proved",
               "that a multi-threaded run is complete whenever the single-threaded one is depends on which relations are found "
               "(heuristic): explored by comparing with the known factorisation, not proved"]
-HYPOTHESES = ["one add preserves the store invariant for a valid relation (C11 add_inv)"]
+HYPOTHESES = ["InputOK: the relations handed to add by the work units satisfy the callers' contract of C11 (true congruences with consistent cofactor data)"]
 _stats = {"runs": 0, "multi_thread_runs": 0, "adds": 0, "stores": 0, "max_threads_seen": 0}
 
 
